@@ -68,6 +68,9 @@ func (c *Config) Validate() error {
 		if len(pool.OutsideInterfaces) == 0 {
 			return fmt.Errorf("cgnat: pool %q: outside_interfaces is required", name)
 		}
+		if err := pool.validatePortGeometry(); err != nil {
+			return fmt.Errorf("cgnat: pool %q: %w", name, err)
+		}
 		seen := make(map[string]struct{}, len(pool.OutsideInterfaces))
 		for i, entry := range pool.OutsideInterfaces {
 			if entry == "" {
@@ -80,6 +83,28 @@ func (c *Config) Validate() error {
 		}
 	}
 	return c.validateOutsideAddressOverlap()
+}
+
+// validatePortGeometry rejects a port range that is not "start-end" with
+// start <= end <= 65535 (parsePortRange silently falls back to the default for
+// anything it cannot scan, and a reversed range makes the pool manager size its
+// bitmaps from a wrapped uint32 and hand out blocks outside any range) and a
+// block size that comes out as 0 (subscriber-ratio larger than the range; the
+// pool manager divides by it).
+func (p *Pool) validatePortGeometry() error {
+	if p.PortRange != "" {
+		var start, end uint32
+		var rest string
+		n, _ := fmt.Sscanf(p.PortRange, "%d-%d%s", &start, &end, &rest)
+		if n != 2 || start > end || end > 65535 {
+			return fmt.Errorf("port-range %q must be \"start-end\" with start <= end <= 65535", p.PortRange)
+		}
+	}
+	if p.GetBlockSize() == 0 {
+		return fmt.Errorf("block size is 0 (block-size unset and subscriber-ratio %d exceeds the %d ports of the range)",
+			p.SubscriberRatio, p.GetPortRangeSize())
+	}
+	return nil
 }
 
 // validateOutsideAddressOverlap rejects two pools that list a common outside
